@@ -803,6 +803,26 @@ func rulePAIR6(w *World) []Ob {
 			}
 			n++
 			construct := num.name("encoder construction " + what)
+			// the encoder is used as constructed: nothing but Encode (and Close) is called on it
+			if f := c.Common().StaticCallee(); f != nil && f.Name() == "NewEncoder" {
+				cfgCall := ""
+				for _, v := range append([]ssa.Value{c}, cellLoadsOfValue(c)...) {
+					if v.Referrers() == nil {
+						continue
+					}
+					for _, r := range *v.Referrers() {
+						if ci, ok := r.(ssa.CallInstruction); ok && len(ci.Common().Args) > 0 && ci.Common().Args[0] == v {
+							if m := ci.Common().StaticCallee(); m != nil && m.Name() != "Encode" && m.Name() != "Close" {
+								cfgCall = m.Name()
+							}
+						}
+					}
+				}
+				if cfgCall != "" {
+					l.bad(fid, construct, p.InstrPos(c), "the encoder is reconfigured with "+cfgCall+"(): its output no longer is the library default that the other build variant / mode produces", "encoder")
+					return
+				}
+			}
 			if inLoop(c) {
 				l.bad(fid, construct, p.InstrPos(c), "the encoder is constructed inside the per-root loop: each root gets a fresh encoder (YAML documents lose their '---' separators, buffered state is split)", "encoder")
 				return
@@ -927,6 +947,35 @@ func rulePAIR7(w *World) []Ob {
 				}
 			}
 		}
+		// a deferred closure that calls yield runs after every other yield, including a failed one
+		allInstrs(fn, func(in ssa.Instruction) {
+			d, ok := in.(*ssa.Defer)
+			if !ok {
+				return
+			}
+			mk, ok := d.Common().Value.(*ssa.MakeClosure)
+			if !ok {
+				return
+			}
+			callsYield := false
+			allInstrs(mk.Fn.(*ssa.Function), func(in2 ssa.Instruction) {
+				if c, ok := in2.(*ssa.Call); ok && c.Common().StaticCallee() == nil && !c.Common().IsInvoke() {
+					if fv, ok := resolve(c.Common().Value).(*ssa.Parameter); ok && fv == yieldPrm {
+						callsYield = true
+					}
+					if ld, ok := isLoad(c.Common().Value); ok && rootCell(ld) != nil {
+						for _, st := range cellStores(ld) {
+							if st.Val == ssa.Value(yieldPrm) {
+								callsYield = true
+							}
+						}
+					}
+				}
+			})
+			if callsYield && len(ys) > 0 {
+				bad = "a deferred function calls yield at function exit (" + p.InstrPos(d) + "), i.e. after a yield that may have returned false or delivered an error"
+			}
+		})
 		if bad != "" {
 			l.bad(fid, construct, p.Pos(fn.Pos()), bad+": ranging over this iterator and breaking out panics or visits nodes after the break", "yield")
 		} else {
